@@ -578,6 +578,22 @@ def state_reuse_scenario(attempts: int = 400) -> Dict[str, Any]:
     return {"reused": False}
 
 
+def todao_state_scenario(n: int = 400) -> Dict[str, Any]:
+    """One ToDAOState for many to_dao calls on short-lived objects: keep_alive must pin every converted object, otherwise a
+    later object can get the id() of a dead one and receive the dead one's DAO from the memo."""
+    from krrood.ormatic.dao import to_dao, ToDAOState
+    from test.dataset.example_classes import Position
+    setup_impl()
+    st = ToDAOState()
+    for i in range(n):
+        p = Position(i, i, i)
+        d = to_dao(p, st)
+        if d.x != i:
+            return {"ok": False, "attempt": i, "dao_x": d.x, "expected_x": i}
+        del p, d
+    return {"ok": True, "conversions": n, "memo_size": len(st.memo)}
+
+
 # ----------------------------------------------------------------------------- the check
 def run(tier: str, seed: int, replay=None) -> int:
     rep = Report(PROP, tier, seed, "proof")
@@ -613,7 +629,10 @@ def run(tier: str, seed: int, replay=None) -> int:
         case = replay["case"]
         if isinstance(case, dict) and case.get("scenario") == "state_reuse":
             return _run_state_reuse(rep, findings, only=True)
-        descrs, origin = [case], ["replay"]
+        if isinstance(case, dict) and case.get("scenario") == "todao_state":
+            descrs, origin = [], []
+        else:
+            descrs, origin = [case], ["replay"]
     else:
         cdir = core.VERIF / "corpus" / PROP
         for f in sorted(cdir.glob("*.json")) if cdir.is_dir() else []:
@@ -722,6 +741,14 @@ def run(tier: str, seed: int, replay=None) -> int:
                        "python": f"from harness import c04; print(c04.explain({m['descr']!r}))",
                        "explanation": "canonical form = [root, [object: [class id, scalar ids, [[field tag, [targets]]]]]] in DFS discovery order; "
                                       "spec = canon of the input graph, impl = canon of from_dao(to_dao(input)) on the real code"})
+    if replay is None or replay.get("case", {}).get("scenario") == "todao_state":
+        obs = todao_state_scenario()
+        rep.count("todao_state", True)
+        rep.extra["todao_state_reuse"] = obs
+        if not obs["ok"]:
+            rep.violation({"kind": "counterexample", "case": {"scenario": "todao_state"}, "impl": obs,
+                           "spec": "to_dao(Position(i,i,i), state).x == i for every i, with one ToDAOState shared by all calls",
+                           "python": "from harness import c04; print(c04.todao_state_scenario())"})
     # known findings / fixed entries
     for f in (findings if replay is None else []):
         w = json.loads((core.VERIF / f.witness).read_text())
